@@ -200,8 +200,7 @@ def boxDirFields (l u x g : List Float) (bdiag : Float) (hist : List (List Float
    ("box-multBInv", cmpVec (LSOpt.multBInv bdiag hist p0m) bih),
    ("box-dir", cmpVec d dirH)]
 
-def junkF : WBr Float := ⟨0, 0, 0, 0, [], []⟩
-def lsFloat (minI maxI : Float) (type : Nat) : LineSearch Float := lineSearchOf Float.sqrt junkF minI maxI type
+def lsFloat (minI maxI : Float) (type : Nat) : LineSearch Float := lineSearchOf Float.sqrt minI maxI type
 
 def xstep (o : Objective Float) (x : XSt) (h : LSOpt Float) (isInit : Bool) (bx : List Float := []) : String :=
   let boxLbfgs := o.constrained && x.kind == "lbfgs"
